@@ -434,3 +434,41 @@ def gen_bar_on_supports_scene(rng):
     if rng.random() < 0.5:
         scene["forces"].append({"type": "force", "body": 0, "vec": [float(rng.uniform(-3, 3)), float(rng.uniform(-1, 1)), float(rng.uniform(-5, 3))], "rB": [float(rng.uniform(-0.5, 0.5)) * L, 0.0, 0.0], "time": "const"})
     return scene
+
+
+def gen_belt_scene(rng):
+    """A ball / particle lying on a plane that is moved tangentially in time (conveyor belt, shaking table): closed,
+    persistent contact at t0 whose slip velocity has an explicit time part (the belt's velocity).  The body is at rest
+    (it slides on the belt), moves with the belt (it sticks), or has another tangential velocity."""
+    from .scenes import FrameMotion
+
+    p = rot.rand_quat(rng) if rng.random() < 0.5 else np.array([1.0, 0.0, 0.0, 0.0])
+    A = rot.quat_to_mat(p)
+    n = A[:, 2]
+    amp = A[:, 0] * float(rng.uniform(-0.3, 0.3)) + A[:, 1] * float(rng.uniform(-0.3, 0.3))
+    plane = {"r": rng.uniform(-0.5, 0.5, 3).tolist(), "p": np.asarray(p).tolist(), "motion": {"amp": amp.tolist(), "w": float(rng.uniform(1.0, 6.0)), "axis": [0.0, 0.0, 1.0], "alpha": 0.0}}
+    t0 = float(np.round(rng.uniform(0.0, 3.0), 3))
+    fm = FrameMotion(plane)
+    vb = np.array(fm.r_t(t0), dtype=float)
+    rad = float(rng.uniform(0.05, 0.3))
+    c = np.array(fm.r(t0), dtype=float) + A[:, 0] * float(rng.uniform(-0.3, 0.3)) + A[:, 1] * float(rng.uniform(-0.3, 0.3)) + n * rad
+    mode = str(rng.choice(["at_rest", "with_belt", "other"]))
+    v = {"at_rest": np.zeros(3), "with_belt": vb, "other": vb + A[:, 0] * float(rng.uniform(-1, 1)) + A[:, 1] * float(rng.uniform(-1, 1))}[mode]
+    kind = str(rng.choice(["rigid", "point"]))
+    b = {"kind": kind, "m": float(rng.uniform(0.3, 3.0)), "r": c.tolist(), "v": v.tolist()}
+    if kind == "rigid":
+        x = 0.4 * b["m"] * rad**2
+        b.update(theta=[x, x, x], p=rot.rand_quat(rng).tolist(), w=[0.0, 0.0, 0.0])
+    return {
+        "t0": t0,
+        "bodies": [b],
+        "frames": [],
+        "joints": [],
+        "tpis": [],
+        "laws": [],
+        "actuators": [],
+        "forces": [],
+        "gravity": (-9.81 * n).tolist(),
+        "contacts": [{"type": "s2p", "plane": plane, "body": 0, "radius": rad, "mu": float(rng.uniform(0.2, 0.8)), "eN": 0.0, "eF": 0.0}],
+        "belt_mode": mode,
+    }
